@@ -144,7 +144,7 @@ def main(ctx):
             tcls["T:realigned"] = tcls.get("T:realigned", 0) + (1 if ev["indel"] == 1 and any(x[2] > 0 for x in ev["all"]) else 0)
             tcls["T:hits"] = tcls.get("T:hits", 0) + (1 if ev["find"] else 0)
     for need in ("R-events", "T:loc", "T:sub", "T:indel", "T:plen63", "T:plen64", "T:plen33-62", "T:plant0", "T:plant1",
-                 "T:window-end-effective", "T:seq>=5000", "T:dense", "T:seq<=plen", "T:realigned", "T:hits", "T:e4", "T:e0"):
+                 "T:window-end-effective", "T:seq>=5000", "T:dense", "T:late", "T:seq<=plen", "T:realigned", "T:hits", "T:e4", "T:e0"):
         vac.append(("trace class " + need, tcls.get(need, 0)))
     ctx.classes.update(tcls)
     if not ctx.violations:
